@@ -250,8 +250,42 @@ def _moment_case(case):
     return out
 
 
+def _declared_case(c):
+    """a LIST of per-dimension distributions (every list over a small menu, d = 3..5): the operation's distribution object and the
+    weighted grid's midpoint of EVERY dimension must be those of the distribution declared for that dimension"""
+    from sparseSpACE.GridOperation import UncertaintyQuantification
+    from sparseSpACE.Grid import GlobalTrapezoidalGridWeighted
+    from sparseSpACE.Function import FunctionLinear
+    allspec = dict(DISTS, **DISTS_EXTRA)
+    spec = [allspec[n] for n in c["names"]]
+    d = len(spec)
+    A, B = np.array([x[1] for x in spec], dtype=float), np.array([x[2] for x in spec], dtype=float)
+    op = UncertaintyQuantification(FunctionLinear([1.0] * d), [x[0] for x in spec], A, B)
+    g = GlobalTrapezoidalGridWeighted(A, B, op, boundary=False)
+    key = {"dist": "list", "boundary": False, "mixed": True}
+    fails = []
+    for k in range(d):
+        cdf = _ref_cdf(*spec[k])
+        lo = A[k] if np.isfinite(A[k]) else spec[k][0][1] - 3.0
+        hi = B[k] if np.isfinite(B[k]) else spec[k][0][1] + 3.0
+        for x in (lo + 0.3 * (hi - lo), lo + 0.7 * (hi - lo)):
+            if not (abs(float(op.distributions[k].cdf(x)) - float(cdf(x))) <= 1e-12):
+                fails.append(fail("distribution_is_the_declared_one", "list %r, dimension %d: cdf(%r) = %r, declared %r gives %r"
+                                  % (c["names"], k, x, float(op.distributions[k].cdf(x)), spec[k][0], float(cdf(x))), key))
+                return fails, (d,)
+        m = float(g.get_mid_point(A[k], B[k], k))
+        l, r = float(cdf(m) - cdf(A[k])), float(cdf(B[k]) - cdf(m))
+        if not (A[k] < m < B[k]) or not (abs(l - r) <= 1e-9):
+            fails.append(fail("midpoint_halves_probability", "list %r, dimension %d: midpoint %r of the support splits the declared distribution %r | %r" % (c["names"], k, m, l, r), key))
+            return fails, (d,)
+    return fails, (d,)
+
+
 def run_case(case):
     c = case["config"]
+    if c["kind"] == "declared":
+        fails, out = _declared_case(c)
+        return {"failures": fails, "canon": core.config_key(c), "outcome": out, "nontrivial": True, "evals": out[0]}
     if c["kind"] == "tree":
         fails, out = _tree_case(c)
         return {"failures": fails, "canon": core.config_key(c), "outcome": out, "nontrivial": out[0] > 0, "evals": max(1, out[0])}
@@ -277,6 +311,12 @@ def main(ctx):
             for dim in (0, 1):
                 cases.append({"config": {"kind": "tree", "dist": name, "boundary": bd, "dim": dim, "shape": ["depth", 3]}})
                 cases.append({"config": {"kind": "tree", "dist": name, "boundary": bd, "dim": dim, "shape": ["chain", "right", 5]}})
+    # lists of per-dimension distributions: every list over a menu of four for d = 3, 4 (thorough: 5)
+    import itertools
+    menu = ["uniform01", "triangle_mid", "normal_inf", "uniform"]
+    for d in (3, 4) if q else (3, 4, 5):
+        for names in itertools.product(menu[:3] if d == 5 else menu, repeat=d):
+            cases.append({"config": {"kind": "declared", "names": list(names), "dist": "list", "boundary": False}})
     ctx.determinism_probe(cases[0])
     for case, res in zip(cases, ctx.map(cases, chunksize=1)):
         ctx.absorb(case, res, group="trees_" + case["config"]["dist"])
